@@ -606,6 +606,13 @@ def sample_envs(consts, hyps, model, seed=0):
     assigns = _int_assignments(hyps, ints, model)
     if not assigns:
         assigns = [{n: (mvals.get(n) if isinstance(mvals.get(n), int) else 2) for n in ints}]
+    dtype_names, spare = {}, ["float16", "bfloat16", "float8"]
+    for nm in ("float64", "float32", "int64"):
+        if (model or {}).get(nm) is not None:
+            dtype_names[model[nm]] = nm
+    for n, c in others.items():
+        if c.sort().name() == "Dtype" and (model or {}).get(n) is not None and model[n] not in dtype_names:
+            dtype_names[model[n]] = "float32" if "float32" not in dtype_names.values() else (spare.pop(0) if spare else "float16")
     j = 0
     generic = assigns[: max(1, min(4, len(assigns)))]
     while True:
@@ -635,7 +642,8 @@ def sample_envs(consts, hyps, model, seed=0):
         for n, c in others.items():
             sn = c.sort().name()
             if sn == "Dtype":
-                env[n] = "float64"
+                # only (in)equalities between dtypes matter (every float dtype is the reals here): follow the classes of the model
+                env[n] = dtype_names.get((model or {}).get(n), "float64") if j % 2 == 0 else "float64"
             elif sn == "Arr":
                 if n not in ARR_SHAPES:
                     ok = False
